@@ -164,6 +164,9 @@ struct Chan {
     send_past: Option<usize>,
     /// create the receiving end before the sending end
     recv_end_first: bool,
+    /// > 0: the sending end is created (and the stream registered with the transport) only after
+    /// the scenario's main task has yielded this many times; the receivers start right away
+    open_late: u8,
     /// indeterminate channels: the close is issued like record `n` inside the window (true) or
     /// sequentially after all sends have completed (false)
     close_in_window: bool,
@@ -197,7 +200,7 @@ impl Scn {
                 "send_yields": c.send_delay.iter().map(|d| [d.0, d.1]).collect::<Vec<_>>(),
                 "recv_yields": c.recv_delay.iter().map(|d| [d.0, d.1]).collect::<Vec<_>>(),
                 "recv_peek_first": c.recv_peek,
-                "receive_past_total": c.ask_eos, "send_past_total": c.send_past, "receiver_created_first": c.recv_end_first,
+                "receive_past_total": c.ask_eos, "send_past_total": c.send_past, "receiver_created_first": c.recv_end_first, "sender_opened_after_yields": c.open_late,
                 "close_in_window": c.close_in_window,
             })).collect::<Vec<_>>(),
         })
@@ -295,6 +298,7 @@ fn gen_scenario(src: &mut Src<'_>) -> Scn {
             ask_eos,
             send_past: if !indeterminate && src.chance(1, 3) { Some(src.pick(&[0usize, 0, 1, 5])) } else { None },
             recv_end_first: src.bool(),
+            open_late: src.pick(&[0u8, 0, 0, 3, 10, 30]),
             close_in_window: src.bool(),
         });
     }
@@ -497,7 +501,9 @@ fn classify_send<I: crate::helpers::TransportIdentity>(r: Result<(), HelperError
     }
 }
 
-fn spawn_channel<N: ArrayLength>(world: &World, scn: &Scn, c: usize, sh: &Arc<Shared>) {
+/// `part`: 0 = both ends, 1 = receiving end (and its operations) only, 2 = sending end only
+fn spawn_channel<N: ArrayLength>(world: &World, scn: &Scn, c: usize, sh: &Arc<Shared>, part: u8) {
+    let (want_tx, want_rx) = (part != 1, part != 2);
     let ch = &scn.chans[c];
     let gate = Gate::from(ch.gate.as_str());
     let total = match ch.total {
@@ -514,13 +520,19 @@ fn spawn_channel<N: ArrayLength>(world: &World, scn: &Scn, c: usize, sh: &Arc<Sh
         Kind::Mpc { shard, from, to } => {
             let mk_tx = || Arc::new(world.gateway(shard, from).get_mpc_sender::<Payload<N>>(&ChannelId::new(ROLES[to], gate.clone()), total, scn.active.try_into().unwrap()));
             let mk_rx = || Arc::new(world.gateway(shard, to).get_mpc_receiver::<Payload<N>>(&ChannelId::new(ROLES[from], gate.clone())));
-            let (tx, rx) = if ch.recv_end_first {
-                let rx = mk_rx();
-                (mk_tx(), rx)
-            } else {
-                let tx = mk_tx();
-                (tx, mk_rx())
+            let (tx, rx) = match (want_tx, want_rx) {
+                (true, true) if ch.recv_end_first => {
+                    let rx = mk_rx();
+                    (Some(mk_tx()), Some(rx))
+                }
+                (true, true) => {
+                    let tx = mk_tx();
+                    (Some(tx), Some(mk_rx()))
+                }
+                (true, false) => (Some(mk_tx()), None),
+                _ => (None, Some(mk_rx())),
             };
+            if let Some(tx) = tx {
             for i in 0..n {
                 let tx = Arc::clone(&tx);
                 spawn_op(sh, c, Slot::Send(i), ch.send_delay[i], Some((Arc::clone(&send_prefix), i, window)), Some(Arc::clone(&send_prefix)), i, async move {
@@ -541,7 +553,9 @@ fn spawn_channel<N: ArrayLength>(world: &World, scn: &Scn, c: usize, sh: &Arc<Sh
                     classify_send(tx.send(RecordId::from(n + extra), payload::<N>(salt, n + extra)).await)
                 });
             }
+            }
             let n_recv = if ch.ask_eos { n + 1 } else { n };
+            let Some(rx) = rx else { return };
             for i in 0..n_recv {
                 let rx = Arc::clone(&rx);
                 let peek = ch.recv_peek[i];
@@ -567,14 +581,19 @@ fn spawn_channel<N: ArrayLength>(world: &World, scn: &Scn, c: usize, sh: &Arc<Sh
             let (from_s, to_s) = (ShardIndex::try_from(from).unwrap(), ShardIndex::try_from(to).unwrap());
             let mk_tx = || Arc::new(world.gateway(from, role).get_shard_sender::<Payload<N>>(&ChannelId::new(to_s, gate.clone()), total));
             let mk_rx = || world.gateway(to, role).get_shard_receiver::<Payload<N>>(&ChannelId::new(from_s, gate.clone()));
-            let (tx, rx) = if ch.recv_end_first {
-                let rx = mk_rx();
-                (mk_tx(), rx)
-            } else {
-                let tx = mk_tx();
-                (tx, mk_rx())
+            let (tx, rx) = match (want_tx, want_rx) {
+                (true, true) if ch.recv_end_first => {
+                    let rx = mk_rx();
+                    (Some(mk_tx()), Some(rx))
+                }
+                (true, true) => {
+                    let tx = mk_tx();
+                    (Some(tx), Some(mk_rx()))
+                }
+                (true, false) => (Some(mk_tx()), None),
+                _ => (None, Some(mk_rx())),
             };
-            let mut rx = Box::pin(rx);
+            if let Some(tx) = tx {
             for i in 0..n {
                 let tx = Arc::clone(&tx);
                 spawn_op(sh, c, Slot::Send(i), ch.send_delay[i], Some((Arc::clone(&send_prefix), i, window)), Some(Arc::clone(&send_prefix)), i, async move {
@@ -595,6 +614,9 @@ fn spawn_channel<N: ArrayLength>(world: &World, scn: &Scn, c: usize, sh: &Arc<Sh
                     classify_send(tx.send(RecordId::from(n + extra), payload::<N>(salt, n + extra)).await)
                 });
             }
+            }
+            let Some(rx) = rx else { return };
+            let mut rx = Box::pin(rx);
             // one FIFO consumer: item j is logged as receive j; the item after the last record
             // must be the end of the stream
             sh.remaining.fetch_add(1, Ordering::SeqCst);
@@ -681,7 +703,18 @@ fn run_scenario(scn: &Scn) -> (Verdict, Vec<ChanLog>, Option<(String, String)>) 
         let cfg = TestWorldConfig { gateway_config, seed: scn.seed, ..Default::default() };
         let world = World::new(scn.shards, &cfg);
         for c in 0..scn.chans.len() {
-            by_size!(scn.chans[c].size, spawn_channel(&world, scn, c, &sh));
+            let part = if scn.chans[c].open_late > 0 { 1 } else { 0 };
+            by_size!(scn.chans[c].size, spawn_channel(&world, scn, c, &sh, part));
+        }
+        // sending ends that are opened late: the receivers (and their early peeks) run while the
+        // peer's stream is not even registered with the transport
+        let mut late: Vec<usize> = (0..scn.chans.len()).filter(|c| scn.chans[*c].open_late > 0).collect();
+        late.sort_by_key(|c| scn.chans[*c].open_late);
+        let mut waited = 0u8;
+        for c in late {
+            yields(scn.chans[c].open_late - waited).await;
+            waited = scn.chans[c].open_late;
+            by_size!(scn.chans[c].size, spawn_channel(&world, scn, c, &sh, 2));
         }
         let mut sleep = Box::pin(tokio::time::sleep(CASE_TIMEOUT));
         let v = std::future::poll_fn(|cx| {
@@ -908,6 +941,8 @@ fn channels_case(env: &Env, src: &mut Src<'_>) -> CaseResult {
     l(ch.iter().any(|c| c.total.is_some() && (c.n * c.size) % chunk_bytes(&scn, c) != 0), "partial_last_chunk");
     l(ch.iter().any(|c| c.n * c.size > chunk_bytes(&scn, c)), "several_chunks");
     l(ch.len() > 1, "several_channels");
+    l(ch.iter().any(|c| c.open_late > 0), "sender_opened_late");
+    l(ch.iter().any(|c| c.open_late > 0 && c.recv_peek.iter().any(|p| *p)), "peek_before_stream_is_registered");
     let pairs = || ch.iter().enumerate().flat_map(|(a, x)| ch.iter().skip(a + 1).map(move |y| (x, y)));
     l(
         pairs().any(|(x, y)| matches!((x.kind, y.kind), (Kind::Mpc { shard: s1, from: f1, to: t1 }, Kind::Mpc { shard: s2, from: f2, to: t2 }) if s1 == s2 && x.gate == y.gate && (f1, t1) != (f2, t2))),
@@ -950,7 +985,7 @@ pub fn subs(env: &Env) -> Vec<Sub> {
             30_000,
             1_500_000,
             channels_case,
-            "TestWorld with 1..3 shards, active in {2,4,16}, read_size in {1,3,16,2048}, 1..4 channels (helper pairs and shard pairs; later channels differ from an earlier one in one coordinate: peer, direction, step, shard, helper-vs-shard), message size in {1,2,3,4,5,7,8,14,18,32}, 1..40 records, specified or indeterminate total; one task per send and per receive with generated yield_now counts before entering the active window and before the operation (at most `active` records outstanding per side), optional late receivers / late senders, receive(total) and send(>=total) probes; oracle: receive(i) = f(channel, i), EndOfStream / TooManyRecords on the probes, every operation completes (exact quiescence detection through the runtime's park hook; wall-clock limit = rejected case); non-trivial = at least one send or receive issued out of index order",
+            "TestWorld with 1..3 shards, active in {2,4,16}, read_size in {1,3,16,2048}, 1..4 channels (helper pairs and shard pairs; later channels differ from an earlier one in one coordinate: peer, direction, step, shard, helper-vs-shard), message size in {1,2,3,4,5,7,8,14,18,32}, 1..40 records, specified or indeterminate total; one task per send and per receive with generated yield_now counts before entering the active window and before the operation (at most `active` records outstanding per side), optional late receivers / late senders, sending ends that are only opened after the receivers (and their throw-away peeks) have run, i.e. before the peer's stream is registered with the transport, receive(total) and send(>=total) probes; oracle: receive(i) = f(channel, i), EndOfStream / TooManyRecords on the probes, every operation completes (exact quiescence detection through the runtime's park hook; wall-clock limit = rejected case); non-trivial = at least one send or receive issued out of index order",
         )
         .shrink_iters(300),
     ]
